@@ -56,9 +56,12 @@ pub struct Profile {
     pub off: usize,
     pub pos: usize,
     pub run_out: usize,
+    /// the consuming `with_offset` (same meaning as `set_offset`)
+    pub withoff: usize,
 }
 
 pub struct History<'h> {
+    pub scanner: &'h Scanner,
     pub it: FindMatches<'h>,
     pub input: &'h str,
     pub k: usize,
@@ -72,10 +75,11 @@ pub struct History<'h> {
 }
 
 impl<'h> History<'h> {
-    pub fn new(scanner: &Scanner, input: &'h str, k: usize, n_modes: usize) -> Self {
+    pub fn new(scanner: &'h Scanner, input: &'h str, k: usize, n_modes: usize) -> Self {
         let mut boundaries: Vec<usize> = input.char_indices().map(|(i, _)| i).collect();
         boundaries.push(input.len());
         History {
+            scanner,
             it: scanner.find_iter(input),
             input,
             k,
@@ -99,12 +103,40 @@ impl<'h> History<'h> {
         }
     }
 
+    /// `set_offset(o)` (reported to the model as `setoff`).
+    pub fn set_offset_to(&mut self, o: usize, out: &mut String) {
+        self.last_setoff = o;
+        self.last_peek_ends.clear();
+        let _ = writeln!(out, "setoff {} {}", self.k, o);
+        if self.guarded(|it| it.set_offset(o)).is_none() {
+            out.push_str("expect panic\n");
+        }
+    }
+
+    /// The consuming `with_offset(o)`: the iterator is replaced by the returned one. For the model
+    /// this is `setoff` (the property gives both the same meaning).
+    pub fn with_offset_to(&mut self, o: usize, out: &mut String) {
+        self.last_setoff = o;
+        self.last_peek_ends.clear();
+        let _ = writeln!(out, "setoff {} {}", self.k, o);
+        // move the iterator out, call the consuming method, move the result back in
+        let it = unsafe { std::ptr::read(&self.it) };
+        match catch_unwind(AssertUnwindSafe(move || it.with_offset(o))) {
+            Ok(n) => unsafe { std::ptr::write(&mut self.it, n) },
+            Err(_) => {
+                unsafe { std::ptr::write(&mut self.it, self.scanner.find_iter(self.input)) };
+                self.dead = true;
+                out.push_str("expect panic\n");
+            }
+        }
+    }
+
     /// Performs one random operation; appends the op line and its `expect` line to `out`.
     /// Returns the name of the op.
     pub fn step(&mut self, r: &mut Rng, p: &Profile, out: &mut String) -> &'static str {
         let k = self.k;
         let total = p.next + p.nextp + p.peek + p.adv_after_peek + p.adv_any + p.setoff_back
-            + p.setoff_any + p.setmode + p.curmode + p.modename + p.off + p.pos + p.run_out;
+            + p.setoff_any + p.setmode + p.curmode + p.modename + p.off + p.pos + p.run_out + p.withoff;
         let mut x = r.below(total.max(1));
         macro_rules! take {
             ($w:expr) => {{
@@ -228,6 +260,10 @@ impl<'h> History<'h> {
                 out.push_str("expect panic\n");
             }
             "setoff_any"
+        } else if take!(p.withoff) {
+            let o = if r.chance(85) { *r.pick(&self.boundaries) } else { self.input.len() + r.below(4) };
+            self.with_offset_to(o, out);
+            "withoff"
         } else if take!(p.setmode) {
             let m = r.below(self.n_modes);
             let _ = writeln!(out, "setmode {} {}", k, m);
